@@ -727,19 +727,48 @@ func TestVerifC12(t *testing.T) {
 					settle()
 				}
 				done, finished := c12AdminRaw(cs, x, admin, 100*time.Millisecond)
+				closedEarly := false
 				if !finished {
 					ctx.Count("admin_waited_for_cascade", 1)
-					settle()
+					if stop == "close" && held && cs.R.Chance(0.5) {
+						// The shutdown arrives while the snapshot / compaction still waits behind
+						// the parked cascade: Close cuts the cascade short, and whatever the waiting
+						// operation then does (give up, or complete), the VDEL record must not be
+						// dropped from the log before the unlinks are in it.
+						closedEarly = true
+						cs.Op("Close while %s waits behind the parked cascade", admin)
+						cl := make(chan error, 1)
+						go func() { cl <- x.CloseRaw() }()
+						time.Sleep(time.Duration(cs.R.Range(0, 300)) * time.Microsecond)
+						g.release()
+						adminErr := <-done
+						if err := <-cl; err != nil {
+							cs.Fail("Close while %s waited for the cascade returned error: %v", admin, err)
+						}
+						if adminErr != nil {
+							ctx.Count("close_while_admin_waits.admin_gave_up", 1)
+						} else {
+							ctx.Count("close_while_admin_waits.admin_completed", 1)
+						}
+					} else {
+						settle()
+					}
 				}
-				if err := <-done; err != nil {
-					cs.Fail("%s during the cascade: %v", admin, err)
+				if !closedEarly {
+					if err := <-done; err != nil {
+						cs.Fail("%s during the cascade: %v", admin, err)
+					}
 				}
-				if !settled {
+				if !settled && !closedEarly {
 					ctx.Count("admin_completed_with_cascade_parked."+admin+"."+stop, 1)
 				}
 				y := x
 				var loR int64
-				if stop == "close" {
+				if closedEarly {
+					verifhook.Reset()
+					loR = x.Now()
+					x.Reopen()
+				} else if stop == "close" {
 					cl := make(chan error, 1)
 					go func() { cl <- x.CloseRaw() }()
 					time.Sleep(time.Duration(cs.R.Range(0, 300)) * time.Microsecond)
